@@ -239,10 +239,12 @@ func (s *Sched) dispatch(me *G) {
 	}
 	idx := 0
 	if len(en) > 1 {
+		// every non-default scheduling decision costs one deviation: a preemption when the
+		// running goroutine could go on, a non-lowest-id pick when it is blocked or finished
 		if en[0] == me {
 			idx = s.x.Dev(len(en), "preempt@"+me.opName)
 		} else {
-			idx = s.x.Input(len(en), "switch")
+			idx = s.x.Dev(len(en), "switch@"+me.opName)
 		}
 	}
 	next := en[idx]
